@@ -61,6 +61,11 @@ warnings.simplefilter('ignore')
 
 
 def import_emsarray():
+    # emsarray opens its work files with open_mfdataset(lock=False); with dask's threaded scheduler
+    # that lets several threads into a non-thread-safe HDF5 at once (observed: segfaults in libhdf5
+    # under load).  The harness owns this nondeterminism by computing lazily loaded data on one thread.
+    import dask
+    dask.config.set(scheduler='synchronous')
     import emsarray
     path = os.path.realpath(emsarray.__file__)
     if not path.startswith(os.path.realpath(SRC) + os.sep):
